@@ -37,6 +37,7 @@ REPO = os.environ.get("MINGUS_REPO", "/repo")
 NPROC = int(os.environ.get("VERIF_PROCS", "16"))
 MAX_REPLAYS_PER_CLAUSE = 12      # replay files written / VIOLATION lines printed per clause
 MAX_SAMPLES = 4
+DECIDED_AFTER_S = float(os.environ.get("VERIF_DECIDED_AFTER_S", "240"))   # see Ctx._decided
 # records kept per worker task and clause (all violations are *counted*); generous when known findings have to be
 # told apart from new violations, small otherwise
 PROBLEM_RECORDS_PER_TASK = 4000 if os.path.exists(os.path.join(VERIF, "known_findings.json")) and \
@@ -480,6 +481,31 @@ class Ctx(object):
     def counter(self, name):
         return self.stats.counters.get(name, 0)
 
+    def _decided(self, clause, label=None, kind="product"):
+        """True when the verdict is already 'violation' and the run has gone on for DECIDED_AFTER_S.
+
+        A change that adds hidden growing state to a class (a class-wide memo) can make every state
+        key of a later search unique and large, so that the remaining clauses need many times their
+        usual time although an earlier clause has long reported the violation (seed C13-j3).  The
+        verdict cannot change back: once an *unlisted* violation is recorded and the run is older
+        than the limit, the remaining clauses are skipped, named under caps_hit, and the run is
+        reported as not exhaustive.  Never taken on a tree without violations.
+        """
+        if time.time() - self.t0 < DECIDED_AFTER_S or not self.stats.problems:
+            return False
+        if getattr(self, "_known", None) is None:
+            self._known = load_known(self.prop)
+        if not any(match_known(self.module, self._known, rec) is None
+                   for recs in self.stats.problems.values() for rec in recs):
+            return False
+        self.exhaustive = False
+        self.caps_hit.append("%s: skipped, an unlisted violation was already recorded and the run was %ds old" % (
+            label or clause, time.time() - self.t0))
+        self.per_clause.setdefault(label or clause, {
+            "clause": clause, "kind": kind, "skipped": True, "cases": 0, "executions": 0, "violating": 0, "states": 0,
+            "levels": [], "fixpoint_reached": False, "capped": True, "wall_s": 0.0})
+        return True
+
     # -- enumerators ---------------------------------------------------------------------
     def _pool(self):
         ctx = multiprocessing.get_context("fork")
@@ -487,6 +513,8 @@ class Ctx(object):
 
     def product(self, clause, shards, gen, runner=None, parallel=True):
         """Exhaustively run ``runner`` on every case produced by ``gen(shard)`` for every shard."""
+        if self._decided(clause):
+            return
         runner = runner or self.module.CLAUSES[clause]
         shards = list(shards)
         self.rng.shuffle(shards)                     # order only; every shard is run
@@ -507,6 +535,8 @@ class Ctx(object):
 
     def serial(self, clause, cases, runner=None):
         """Same as product, in this process (needed when the runner touches process state)."""
+        if self._decided(clause, kind="serial"):
+            return
         runner = runner or self.module.CLAUSES[clause]
         global S
         t = time.time()
@@ -522,6 +552,8 @@ class Ctx(object):
 
     def bfs(self, clause, spec, depth, cap=None, parallel=True, label=None):
         """Explicit-state breadth-first search over the real transition functions."""
+        if self._decided(clause, label, kind="bfs"):
+            return set()
         t = time.time()
         cases0 = self.stats.clause_cases.get(clause, 0)
         viol0 = self.stats.problem_counts.get(clause, 0)
@@ -543,6 +575,9 @@ class Ctx(object):
             for d in range(1, depth + 1):
                 if not frontier:
                     reached_fixpoint = True
+                    break
+                if self._decided(clause, (label or clause) + " (from depth %d)" % d, kind="bfs"):
+                    capped = True
                     break
                 self.rng.shuffle(frontier)
                 nchunks = max(1, min(len(frontier), NPROC * 4))
@@ -578,7 +613,7 @@ class Ctx(object):
         self.stats.states += len(seen)
         if capped:
             self.exhaustive = False
-            self.caps_hit.append("%s: state cap %d" % (clause, cap))
+            self.caps_hit.append("%s: state cap %s" % (clause, cap))
         self.per_clause[label or clause] = {
             "clause": clause, "executions": self.stats.clause_cases.get(clause, 0) - cases0,
             "violating": self.stats.problem_counts.get(clause, 0) - viol0,
